@@ -224,6 +224,7 @@ def run(chk, repo, tier):
 
     # ---------------------------------------------------------------- C06-d
     product_rules(chk, repo)
+    scalar_product_rule(chk, repo)
 
     # ---------------------------------------------------------------- C06-e
     f, paths, _ = analyse(repo, 'field._merge')
@@ -332,6 +333,23 @@ def product_rules(chk, repo, clause='C06-d'):
     chk.ob(clause, 'D-flow', fm.key, 'product = overlapping parts of the broadcast operands at the intersection shift',
            okm and nn > 0, det, fm.loc())
 
+
+
+def scalar_product_rule(chk, repo, clause='C06-d'):
+    """Two one-element fields multiply only where they sit on the same sample: the offsets (lists, tuples or arrays,
+    whatever the caller passed) are compared element by element with np.array_equal, not with ``==`` as a truth value."""
+    f = repo.func('field.Field._mul_scalar')
+    _, paths, _ = analyse(repo, f)
+    so, oo = nf.attr(S('self'), 'offset'), nf.attr(S('other'), 'offset')
+    tests = set()
+    for p in returns(paths):
+        for c, pol, _ in p.conds:
+            if nf.value_atoms(c) & {so.single_atom(), oo.single_atom()}:
+                tests.add(c)
+    ok = bool(tests) and all(c.single_atom() is not None and is_app(c.single_atom(), ('array_equal', 'array_equiv', 'allclose'))
+                            and set(map(nf.vkey, c.single_atom()[2][:2])) == {nf.vkey(so), nf.vkey(oo)} for c in tests)
+    chk.ob(clause, 'T-comparison', f.key, 'the offsets of two one-element fields are compared by value (np.array_equal)',
+           ok if tests else None, '; '.join(sorted(fmt(c)[:80] for c in tests)) or 'undecided: no test of the offsets found', f.loc())
 
 
 def disjoint_rules(chk, repo):
